@@ -1,4 +1,160 @@
-/- dsmodel_wire_quant: wire-format model driver stub (filled in when the family group is built). -/
-def main (_args : List String) : IO UInt32 := do
-  IO.eprintln "dsmodel_wire_quant: not built yet"
-  return 2
+/-
+dsmodel_wire_quant: the specification readers/writers of the KLL / REQ / classic-quantiles images as a line driver.
+
+  IMG <fam>.<ty> <hex>      -> OK <api content> | reenc=<0|1> size=<serializedSize> minpref=<smallest accepted prefix> rest=<unread bytes>
+                               | REJECT
+  FIELDS <fam>.<ty> <hex>   -> FIELDS name@offset+len ...   (field map of the image; REJECT if it does not decode)
+  PFX <fam>.<ty> <hex>      -> PFX size=<n> accepts=none | <len>:<content>;...   (verdict of the reader on EVERY strict prefix)
+  LEGACY <fam>.<ty> ...     -> IMG <fam>.<ty> <hex> | <api content>   (legacy encoders; see each family)
+
+fam in kll | req | quant ; ty in f32 | f64 | i64 | str.  Constants come from DSGen (the CURRENT headers).
+-/
+import DSModel.Wire.KllCode
+import DSModel.Wire.QuantilesCode
+import DSModel.Wire.ReqCode
+import DSModel.DriverLoop
+import DSModel.Util
+open DS DS.Wire
+
+structure Decoded where
+  content : String
+  reenc : Bytes
+  size : Nat
+  rest : Nat
+  fields : String
+
+def decodeKll (ty : ItemType) (b : Bytes) : Option Decoded :=
+  let sd := ty.serde
+  match Kll.decode sd Kll.codeCfg b with
+  | none => none
+  | some (img, r) =>
+    some { content := ((Kll.project Kll.codeCfg img).canon ty).line, reenc := Kll.encode sd Kll.codeCfg img,
+           size := Kll.serializedSize sd Kll.codeCfg img, rest := r.length,
+           fields := fieldsLine (Kll.fields sd (ty == .str) img) }
+
+def decodeQuant (ty : ItemType) (b : Bytes) : Option Decoded :=
+  let sd := ty.serde
+  let c := Quantiles.codeCfg
+  match Quantiles.decode sd c b with
+  | none => none
+  | some (img, r) =>
+    some { content := ((Quantiles.project img).canon ty).line, reenc := Quantiles.encode sd c img,
+           size := Quantiles.serializedSize sd c img, rest := r.length,
+           fields := fieldsLine (Quantiles.fields sd (ty == .str) c img) }
+
+def decodeReq (ty : ItemType) (b : Bytes) : Option Decoded :=
+  let sd := ty.serde
+  let c := Req.codeCfg
+  match Req.decode sd c b with
+  | none => none
+  | some (img, r) =>
+    some { content := ((Req.project ty img).canon ty).line, reenc := Req.encode sd c img,
+           size := Req.serializedSize sd c img, rest := r.length,
+           fields := fieldsLine (Req.fields sd (ty == .str) img) }
+
+def decodeKind (fam : String) (ty : ItemType) (b : Bytes) : Option Decoded :=
+  match fam with
+  | "kll" => decodeKll ty b
+  | "quant" => decodeQuant ty b
+  | "req" => decodeReq ty b
+  | _ => none
+
+def tyName : ItemType → String
+  | .f32 => "f32" | .f64 => "f64" | .i64 => "i64" | .str => "str"
+
+def parseItems (l : List String) : Option (List Item) :=
+  l.mapM (fun s => (parseHexBytes s).map (·.toList))
+
+def chunks (k : Nat) : Nat → List Item → List (List Item)
+  | 0, _ => []
+  | m + 1, l => l.take k :: chunks k m (l.drop k)
+
+/-- LEGACY quant.<ty> <ver 1|2> <k> <unused> <pad> <n> <min> <max> <items...>: items = base buffer (n mod 2k), then for
+serial version 1 with levels the surplus slots (2k - n mod 2k), then k per valid level -/
+def quantLegacy (ty : ItemType) (w : List String) : String :=
+  match w with
+  | ver :: k :: unused :: pad :: n :: mn :: mx :: items =>
+    match ver.toNat?, k.toNat?, unused.toNat?, pad.toNat?, n.toNat?, parseHexBytes mn, parseHexBytes mx, parseItems items with
+    | some ver, some k, some unused, some pad, some n, some mn, some mx, some items =>
+      let c := Quantiles.codeCfg
+      let sd := ty.serde
+      let bbN := n % (2 * k)
+      let exN := if ver == c.ver1 && n / (2 * k) != 0 then 2 * k - bbN else 0
+      let body : Quantiles.Body :=
+        { n := n, min := mn.toList, max := mx.toList, v1pad := pad, bb := items.take bbN, extra := (items.drop bbN).take exN,
+          levels := chunks k (Quantiles.popCount (n / (2 * k))) (items.drop (bbN + exN)) }
+      let img := if ver == c.ver1 then Quantiles.legacyV1 c k unused body else Quantiles.legacyV2 c k unused body
+      if Quantiles.WF sd c img then
+        "IMG quant." ++ tyName ty ++ " " ++ listBytesHex (Quantiles.encodeLegacy sd c img) ++ " | " ++ ((Quantiles.project img).canon ty).line
+      else "BAD not-wf"
+    | _, _, _, _, _, _, _, _ => "BAD args"
+  | _ => "BAD args"
+
+def parseKind (s : String) : Option (String × ItemType) :=
+  match s.splitOn "." with
+  | [fam, t] => (ItemType.ofString t).map (fun ty => (fam, ty))
+  | _ => none
+
+/-- smallest prefix length the reader accepts (by prefix safety = the number of bytes consumed; computed by trial as a run-time cross-check) -/
+def minPrefix (fam : String) (ty : ItemType) (b : Bytes) : Nat := Id.run do
+  for n in [0:b.length + 1] do
+    if (decodeKind fam ty (b.take n)).isSome then return n
+  return b.length + 1
+
+def prefixVerdicts (fam : String) (ty : ItemType) (b : Bytes) : String := Id.run do
+  let mut acc : List String := []
+  for n in [0:b.length] do
+    match decodeKind fam ty (b.take n) with
+    | some d => acc := acc ++ [toString n ++ ":" ++ d.content.replace " " "_"]
+    | none => pure ()
+  return if acc.isEmpty then "none" else ";".intercalate acc
+
+def kllLegacy (ty : ItemType) (w : List String) : String :=
+  match w with
+  | [k, lz, item] =>
+    match k.toNat?, parseHexBytes item with
+    | some k, some it =>
+      let sd := ty.serde
+      let img := Kll.legacySingle Kll.codeCfg k (lz == "1") it.toList
+      if Kll.WF sd Kll.codeCfg img then
+        "IMG kll." ++ (match ty with | .f32 => "f32" | .f64 => "f64" | .i64 => "i64" | .str => "str") ++ " " ++
+          listBytesHex (Kll.encode sd Kll.codeCfg img) ++ " | " ++ ((Kll.project Kll.codeCfg img).canon ty).line
+      else "BAD not-wf"
+    | _, _ => "BAD args"
+  | _ => "BAD args"
+
+def step (_ : Unit) (w : List String) : Unit × String :=
+  match w with
+  | cmd :: kind :: rest =>
+    match parseKind kind with
+    | none => ((), "BAD kind")
+    | some (fam, ty) =>
+      if cmd == "LEGACY" then
+        ((), match fam with
+             | "kll" => kllLegacy ty rest
+             | "quant" => quantLegacy ty rest
+             | _ => "BAD family")
+      else
+      match rest with
+      | [hex] =>
+        match parseHexBytes hex with
+        | none => ((), "BAD hex")
+        | some ba =>
+          let b := ba.toList
+          match cmd with
+          | "IMG" =>
+            match decodeKind fam ty b with
+            | none => ((), "REJECT")
+            | some d =>
+              ((), "OK " ++ d.content ++ " | reenc=" ++ boolStr (d.reenc == b.take (b.length - d.rest)) ++
+                " size=" ++ toString d.size ++ " minpref=" ++ toString (minPrefix fam ty b) ++ " rest=" ++ toString d.rest)
+          | "FIELDS" =>
+            match decodeKind fam ty b with
+            | none => ((), "REJECT")
+            | some d => ((), "FIELDS " ++ d.fields)
+          | "PFX" => ((), "PFX size=" ++ toString b.length ++ " accepts=" ++ prefixVerdicts fam ty b)
+          | _ => ((), "BAD command")
+      | _ => ((), "BAD args")
+  | _ => ((), "BAD line")
+
+def main (_args : List String) : IO UInt32 := DS.runDriver () step
